@@ -78,6 +78,30 @@ SingleCall(o, m, i) ==
                    halo |-> o.halo, precision |-> o.prec, cache |-> o.cache],
      meta     |-> [tower_name |-> <<"name", o.tower>>, tower_xy |-> <<"tower_xy", o.tower>>, timestamp |-> st.ts, params |-> st]]
 
+(************************ defaults of every optional key ********************)
+(* parse_config_dict: a key that is present keeps its value - whatever the   *)
+(* value, including 0, 0.0, False - and an absent key gets the documented    *)
+(* default.  The table gives the defaults as Python renders them (repr).     *)
+OptKeys == {"domain.modes", "domain.halo", "domain.ref_lat", "domain.ref_lon", "domain.output_levels", "domain.full_output",
+            "met.ustar", "met.mol", "met.wind_speed", "met.wind_dir", "met.z0", "met.timestamps",
+            "solver.closure", "solver.precision", "solver.footprint", "solver.surface_flux_shape", "solver.analytic", "solver.src_loc",
+            "output.format", "output.directory", "parallel.num_threads", "parallel.max_workers", "parallel.use_cache"}
+DefaultOf(k) ==
+    CASE k = "domain.modes" -> "(512, 512)" [] k = "domain.halo" -> "None" [] k = "domain.ref_lat" -> "None" [] k = "domain.ref_lon" -> "None"
+      [] k = "domain.output_levels" -> "None" [] k = "domain.full_output" -> "False"
+      [] k = "met.ustar" -> "None" [] k = "met.mol" -> "1000000000.0" [] k = "met.wind_speed" -> "5.0" [] k = "met.wind_dir" -> "270.0"
+      [] k = "met.z0" -> "None" [] k = "met.timestamps" -> "None"
+      [] k = "solver.closure" -> "'MOST'" [] k = "solver.precision" -> "'single'" [] k = "solver.footprint" -> "False"
+      [] k = "solver.surface_flux_shape" -> "'diamond'" [] k = "solver.analytic" -> "False" [] k = "solver.src_loc" -> "None"
+      [] k = "output.format" -> "'netcdf'" [] k = "output.directory" -> "'./output'"
+      [] k = "parallel.num_threads" -> "1" [] k = "parallel.max_workers" -> "1" [] k = "parallel.use_cache" -> "False"
+\* presence of a key: absent | given (an ordinary value) | falsy (a value Python treats as false: 0, 0.0, False)
+Presence == {"absent", "given", "falsy"}
+ParsedValue(k, pr) == IF pr = "absent" THEN <<"default", DefaultOf(k)>> ELSE <<"kept", pr>>
+\* scenarios: one key varies over the three forms, all other keys are all absent or all given
+DefaultScenarios == {[key |-> k, form |-> f, others |-> o] : k \in OptKeys, f \in Presence, o \in {"absent", "given"}}
+ExpectedParse(sc) == [k \in OptKeys |-> ParsedValue(k, IF k = sc.key THEN sc.form ELSE sc.others)]
+
 (******************************* state machine ******************************)
 VARIABLES vm, vo, vpc, vi, vlog
 
@@ -93,12 +117,16 @@ OptionsUsed == {o \in Options : /\ <<o.ntowers, o.tower>> \in {<<1, 1>>, <<3, 2>
                                 /\ (o.closure = "OAAHOC" => o.fp /\ ~o.an /\ o.prec = "double")}
 
 Init == /\ vpc = "build" /\ vi = 0 /\ vlog = << >>
-        /\ IF Scenario = "met" THEN vm \in Forcings /\ vo = "none"
-           ELSE vm \in SingleForcings /\ vo \in OptionsUsed
+        /\ CASE Scenario = "met" -> vm \in Forcings /\ vo = "none"
+             [] Scenario = "defaults" -> vm \in DefaultScenarios /\ vo = "none"
+             [] OTHER -> vm \in SingleForcings /\ vo \in OptionsUsed
 
-Build == /\ vpc = "build"                                   \* BLDFMConfig.__post_init__ -> MetConfig.validate
+Build == /\ vpc = "build" /\ Scenario # "defaults"            \* BLDFMConfig.__post_init__ -> MetConfig.validate
          /\ vpc' = IF Valid(vm) THEN "loop" ELSE "rejected"
          /\ UNCHANGED <<vm, vo, vi, vlog>>
+ParseDefaults == /\ vpc = "build" /\ Scenario = "defaults"     \* parse_config_dict on a dictionary with the given presence pattern
+                 /\ vlog' = <<ExpectedParse(vm)>> /\ vpc' = "parsed"
+                 /\ UNCHANGED <<vm, vo, vi>>
 
 Step ==  /\ vpc = "loop" /\ vi < NSteps(vm)                 \* one iteration of range(n_timesteps): get_step(i) [+ single run]
          /\ IF StepDefined(vm, vi)
@@ -111,10 +139,15 @@ Finish == /\ vpc = "loop" /\ vi = NSteps(vm)
           /\ vpc' = "done"
           /\ UNCHANGED <<vm, vo, vi, vlog>>
 
-Next == Build \/ Step \/ Finish
+Next == Build \/ ParseDefaults \/ Step \/ Finish
 Spec == Init /\ [][Next]_cvars
 
 (********************************* C16 ***************************************)
+\* C13 (defaults): a present key is never replaced by its default, an absent one always is
+GivenIsKept == vpc = "parsed" => \A k \in OptKeys :
+                  LET pr == IF k = vm.key THEN vm.form ELSE vm.others IN
+                  (pr = "absent" <=> vlog[1][k][1] = "default") /\ (pr # "absent" => vlog[1][k] = <<"kept", pr>>)
+EmitD == vpc = "parsed" => PrintT("@@" \o ToJson([sc |-> vm, expect |-> vlog[1]]))
 RejectedIffInvalid == (vpc = "rejected" => ~ValidSpec(vm)) /\ (vpc \in {"loop", "done", "indexerror"} => ValidSpec(vm))
 NeverIndexError == vpc # "indexerror"
 OneStepPerEntry ==
